@@ -772,6 +772,9 @@ func enclosingSelect(body ast.Node, comm ast.Stmt) *ast.SelectStmt {
 	return res
 }
 
+// enclosingBody is set by the callers of hasDoneCase to the function body in which locals are looked up.
+var enclosingBody ast.Node
+
 func hasDoneCase(info *types.Info, s *ast.SelectStmt) bool {
 	for _, cl := range s.Body.List {
 		cc, ok := cl.(*ast.CommClause)
@@ -784,6 +787,16 @@ func hasDoneCase(info *types.Info, s *ast.SelectStmt) bool {
 				if c, ok := ast.Unparen(u.X).(*ast.CallExpr); ok {
 					if sel, ok := c.Fun.(*ast.SelectorExpr); ok && sel.Sel.Name == "Done" {
 						found = true
+					}
+				}
+				// a local that holds ctx.Done(): done := p.ctx.Done(); case <-done
+				if o := objOf(info, u.X); o != nil && enclosingBody != nil {
+					if d := singleDef(info, enclosingBody, o); d != nil {
+						if c, ok := ast.Unparen(d).(*ast.CallExpr); ok {
+							if sel, ok := c.Fun.(*ast.SelectorExpr); ok && sel.Sel.Name == "Done" {
+								found = true
+							}
+						}
 					}
 				}
 			}
@@ -815,12 +828,13 @@ func c16Blocking(p *Prog, r *Report) {
 			if !ok {
 				return true
 			}
-			if sel, ok := ast.Unparen(ss.Chan).(*ast.SelectorExpr); !ok || sel.Sel.Name != poolFields.Ch {
+			if !isJobChan(fi.Pkg.TypesInfo, ss.Chan) {
 				return true
 			}
 			n++
 			i++
 			sel := enclosingSelect(fi.Decl.Body, ss)
+			enclosingBody = fi.Decl.Body
 			cons := fmt.Sprintf("%s#channel-send/%d", k, i)
 			r.Check(sel != nil && hasDoneCase(info, sel), "C16.e", cons, p.pos(ss), "send is a select case next to <-ctx.Done()",
 				"a send on the job channel is not guarded by <-ctx.Done(): after Stop cancelled the pool the sender blocks forever and Stop never returns")
@@ -880,12 +894,12 @@ func c16Structure(p *Prog, r *Report) {
 	// sites sending into p.ch
 	var sites []string
 	for k, fi := range p.Funcs {
-		if shortPath(fi.Pkg.PkgPath) != pkgWpool || fi.Decl.Body == nil {
-			continue
+		if shortPath(fi.Pkg.PkgPath) != pkgWpool || fi.Decl.Body == nil || k != fi.Key {
+			continue // (a function registered under a second, pinned name counts once)
 		}
 		ast.Inspect(fi.Decl.Body, func(x ast.Node) bool {
 			if ss, ok := x.(*ast.SendStmt); ok {
-				if sel, ok := ast.Unparen(ss.Chan).(*ast.SelectorExpr); ok && sel.Sel.Name == poolFields.Ch {
+				if isJobChan(fi.Pkg.TypesInfo, ss.Chan) {
 					sites = append(sites, k)
 				}
 			}
@@ -981,4 +995,17 @@ func c15RunFirst(p *Prog, r *Report, rule string) {
 		}
 		r.Check(ok, rule, k+"#run-first", p.pos(fi.Decl), fmt.Sprintf("Pool().Run precedes the %d other pool uses", len(uses)), "the pool is used (jobs sent / scheduled) before Pool().Run: its context and channel are not set up yet")
 	}
+}
+
+// isJobChan: the pool's job channel - its field, or a local copy of it (any channel of jobs).
+func isJobChan(info *types.Info, e ast.Expr) bool {
+	if sel, ok := ast.Unparen(e).(*ast.SelectorExpr); ok && sel.Sel.Name == poolFields.Ch {
+		return true
+	}
+	if tv, ok := info.Types[e]; ok {
+		if ch, isChan := tv.Type.Underlying().(*types.Chan); isChan && strings.HasSuffix(ch.Elem().String(), "wpool.Event") {
+			return true
+		}
+	}
+	return false
 }
